@@ -151,19 +151,24 @@ theorem next_bridge (s : Gen.MacCmdFnUplinkMacCommand.MacCommands) :
     (Gen.MacCmdFnUplinkMacCommand.MacCommands.next s).map (fun r => (r.1.map itemOf, stOf r.2)) = gNext P (stOf s) := by
   obtain ⟨d, e⟩ := s
   unfold Gen.MacCmdFnUplinkMacCommand.MacCommands.next gNext P
-  by_cases hc : (e || d.isEmpty) = true
-  · simp [stOf, hc]
-  · simp only [stOf, hc, Bool.false_eq_true, if_false, Option.bind_eq_bind]
-    cases hp : Gen.MacCmdFnUplinkMacCommand.UplinkMacCommand.parse_one d with
-    | none => simp
-    | some r =>
-      cases r with
-      | Err x => simp [itemOf, stOf]
-      | Ok c n =>
-        simp only [Option.bind_some, Option.map_some, oneOf]
-        cases hs : Rt.sliceFrom d n with
-        | none => simp
-        | some d' => simp [itemOf, stOf]
+  cases e with
+  | true => simp [stOf]
+  | false =>
+    cases d with
+    | nil => simp [stOf]
+    | cons a t =>
+      simp only [stOf, List.isEmpty_cons, Bool.or_self, Bool.or_false, Bool.false_or, Bool.false_eq_true, if_false,
+        Option.bind_eq_bind]
+      cases hp : Gen.MacCmdFnUplinkMacCommand.UplinkMacCommand.parse_one (a :: t) with
+      | none => simp
+      | some r =>
+        cases r with
+        | Err x => simp [itemOf, stOf]
+        | Ok c n =>
+          simp only [Option.bind_some, Option.map_some, oneOf]
+          cases hs : Rt.sliceFrom (a :: t) n with
+          | none => simp
+          | some d' => simp [itemOf, stOf]
 
 def runOf (r : List Gen.MacCmdFnUplinkMacCommand.NextItem × Gen.MacCmdFnUplinkMacCommand.MacCommands × Bool) := (r.1.map itemOf, stOf r.2.1, r.2.2)
 
